@@ -36,14 +36,6 @@ HOOK_COMMITS = []
 UNCLAIMED = {}
 
 PROPS = {
-    "C06": {
-        "coq_targets": ["Run/C06.v"],
-        "gen": [],
-        "classes": {},
-        "level_text": "",
-        "level_note": "",
-        "claimed": False,
-    },
     "C04": {
         "coq_targets": ["Props/C04.v", "Run/C04.v"],
         "audit": "Audit/C04.v",
@@ -85,3 +77,18 @@ PROPS = {
         "trusted": ["smallvec / slice::sort_unstable and binary_search (TextSelectionSet::sort/add are not modelled; the harness reads the set back after construction)"],
     },
 }
+
+
+# per-property configuration files: tools/props.d/Cxx.json (same keys as above; "classes" keys are
+# strings in JSON and converted to int here)
+import glob as _glob
+import json as _json
+for _f in sorted(_glob.glob(os.path.join(C.VERIF, "tools", "props.d", "C*.json"))):
+    _cfg = _json.load(open(_f))
+    _pid = os.path.basename(_f)[:-5]
+    _cfg["classes"] = {int(k): v for k, v in _cfg.get("classes", {}).items()}
+    _cfg.setdefault("gen", [])
+    PROPS[_pid] = _cfg
+_u = os.path.join(C.VERIF, "tools", "props.d", "UNCLAIMED.json")
+if os.path.exists(_u):
+    UNCLAIMED.update(_json.load(open(_u)))
